@@ -32,14 +32,15 @@ def main():
             else:
                 a.no_coq = True
         # 1. regenerate models from the source, re-check the theorems
-        if hasattr(mod, "regen"):
-            mod.regen(ctx)
-        if not a.no_coq:
-            ctx.coq = vlib.coq_check_props(pid)
-            if not ctx.coq["ok"]:
-                ctx.obligation_broken(ctx.coq.get("failed_file") or pid + "/Props.v", ctx.coq["log"])
-                # a broken obligation: spend the thorough budget looking for a failing input
-                ctx.tier_search = "thorough"
+        with vlib.CoqLock():      # regeneration and re-check are one critical section on coq/
+            if hasattr(mod, "regen"):
+                mod.regen(ctx)
+            if not a.no_coq:
+                ctx.coq = vlib.coq_check_props(pid)
+                if not ctx.coq["ok"]:
+                    ctx.obligation_broken(ctx.coq.get("failed_file") or pid + "/Props.v", ctx.coq["log"])
+                    # a broken obligation: spend the thorough budget looking for a failing input
+                    ctx.tier_search = "thorough"
         # 2./3. correspondence and property predicate on the implementation
         if a.replay and body.get("kind") != "obligation":
             if hasattr(mod, "replay"):
